@@ -102,6 +102,14 @@ def make(rng, tier):
     sc = N.Scenario("slow-reader", "maxconn=8", ops)
     sc.kind, sc.sets, sc.nclients, sc.keys, sc.total = "slow-reader", {}, 0, [], len(b"$%d\r\n" % n) + n + 2
     scs.append(sc)
+    # a connection ended earlier; at shutdown another one is in the middle of a command (its store operation parked for 1.5 s):
+    # run() must not return while that command is executing (seed C16-H shape)
+    ops = ["conn a", "send a %s" % G.rawhex(arr(bulk(b"SET"), bulk(b"early"), bulk(b"1"))), "recv a 5 3000", "close a", "sleep 150",
+           "parkany put:before_publish 1500", "conn b", "send b %s" % G.rawhex(arr(bulk(b"SET"), bulk(b"late"), bulk(b"2"))), "sleep 250",
+           "shutdown", "waitrun 400", "waitrun 10000", "recv b eof 5000", "storeget %s" % G.rawhex(b"early"), "storeget %s" % G.rawhex(b"late")]
+    sc = N.Scenario("ended-earlier", "maxconn=8", ops)
+    sc.kind, sc.sets, sc.nclients, sc.keys = "ended-earlier", {}, 0, []
+    scs.append(sc)
     # the recorded finding: shutdown while a handler is blocked writing to a client that does not read
     big = bytes([90]) * 4000000
     ops = ["conn w", "send w %s" % G.rawhex(b"*3\r\n" + bulk(b"SET") + bulk(b"huge") + b"$4000000\r\n"), "send w 4000000x5a", "send w 0d0a", "recv w 5 5000",
@@ -139,6 +147,23 @@ def main(tier, seed):
             continue
         o = {op: sc.out[i + 1] for i, op in enumerate(sc.ops) if i + 1 < len(sc.out)}
         wr = next((sc.out[i + 1] for i, op in enumerate(sc.ops) if op.startswith("waitrun")), "missing")
+        if sc.kind == "ended-earlier":
+            first, second = o.get("waitrun 400", "missing"), o.get("waitrun 10000", "missing")
+            late = o.get("storeget %s" % G.rawhex(b"late"), "missing")
+            rb = o.get("recv b eof 5000", "missing")
+            # run() back within 400 ms although the parked command (1.5 s) was executing: it went on to be applied and answered
+            if first.startswith("returned") and late.startswith("some") and rb.startswith("eof:5:"):
+                rep.failing.append({"what": "run() returned while a command was still executing on another connection (it was applied and answered "
+                                            "afterwards); a connection that had ended before the shutdown signal was taken for the last one",
+                                    "kind": sc.kind, "ops": [x[:70] for x in sc.ops], "out": sc.out[1:]})
+            elif not (first.startswith("returned") or second.startswith("returned")):
+                rep.failing.append({"what": "run() did not return within 10 s after the parked command had finished", "waitrun": second})
+            elif late.startswith("some") and not rb.startswith("eof:5:2b4f4b0d0a"):
+                rep.failing.append({"what": "the command in flight at shutdown was applied but its client did not receive the whole reply and then end of stream: " + rb[:60],
+                                    "kind": sc.kind})
+            elif not o.get("storeget %s" % G.rawhex(b"early"), "").startswith("some"):
+                rep.failing.append({"what": "an acknowledged SET is not in the store after shutdown", "kind": sc.kind})
+            continue
         if sc.kind == "flood":
             if not wr.startswith("returned"):
                 rep.failing.append({"what": "run() did not return within 15 s after the shutdown signal while 4 clients kept pipelining commands", "waitrun": wr})
